@@ -281,9 +281,9 @@ package pickle
 
 //@ func (*pickle.Decoder).Decode$1
 //@   nopanic
-//@   ensures catches-errors: (recovered() != nil && istype(recovered(), "pickle.failure")) ==> deref(err) == recovered()
-//@   ensures leaves-success: recovered() == nil ==> deref(err) == old(deref(err))
-//@   modifies deref(err)
+//@   ensures catches-errors: (recovered() != nil && istype(recovered(), "pickle.failure")) ==> err == recovered()
+//@   ensures leaves-success: recovered() == nil ==> err == old(err)
+//@   modifies err
 
 // `failure` is an interface with exactly error's method set: recover().(failure) succeeds for every
 // error-typed panic value, including the runtime errors raised by failed index and type assertions.
